@@ -165,6 +165,7 @@ func runC02(c *Ctx, idx int) {
 	prof.Skipped = false
 	prof.NonASCII = idx%2 == 1 // odd cases are delivered as parsed trees
 	prof.Glue = idx%3 == 0
+	prof.NeverRendered = true
 	ar, ok := c.runArticle(idx, prof, nil)
 	if !ok {
 		return
